@@ -128,6 +128,17 @@ func judge(h *Header, evs []Ev) *judgement {
 	var lastApplyRet, lastInfoRet *Ev
 	var syncRet, boot, cut *Ev
 	offers := 0
+	var batchIdx uint32
+	var batchH uint64
+	var batchF uint32
+	batchAdded, inBatch, batchRet := 0, false, false // batchRet: the syncer handled an app response during the batch (a discard may have freed the slot)
+	var lastApplyCall *Ev
+	concurrent := map[int]bool{} // arrival ids delivered inside a batch
+	for _, e := range evs {
+		if e.K == "chunk-start" && e.X == "concurrent" {
+			concurrent[e.A] = true
+		}
+	}
 	// pooled(match, at): is there an advert accepted by match that can still be in the pool at event `at`?
 	// (sent before `at`, its peer neither stopped nor rejected between the advert and `at`)
 	pooled := func(match func(*advert) bool, at int) bool {
@@ -343,10 +354,52 @@ func judge(h *Header, evs []Ev) *judgement {
 					offerRejects[e.N] = append(offerRejects[e.N], a.peer)
 				}
 			}
+		case "batch-start":
+			batchIdx, batchAdded, inBatch, batchRet = e.I, 0, true, false
+			batchH, batchF = e.H, e.F
+			j.counts["concurrent delivery batches (same index, several peers, released together)"]++
+			j.counts["chunk deliveries inside concurrent batches"] += int64(len(strings.Split(e.X, ",")))
+			if e.Sol {
+				j.counts["concurrent batches answering a re-sent chunk request"]++
+			}
+		case "added":
+			if inBatch && e.I == batchIdx && e.H == batchH && e.F == batchF {
+				batchAdded++
+			}
+		case "batch-end":
+			inBatch = false
+			if batchAdded > 1 && !batchRet {
+				j.add("concurrent-chunk-queued-more-than-once", fmt.Sprintf("%d of the concurrent deliveries of chunk %d were reported as added to the queue (AddChunk returned true); at most one may be", batchAdded, e.I), e.N, e)
+			}
+			if batchAdded == 1 {
+				j.counts["concurrent batches in which exactly one delivery was queued"]++
+			} else if batchAdded == 0 {
+				j.counts["concurrent batches in which no delivery was queued (chunk already held / senders rejected)"]++
+			}
 		case "apply-call":
 			callNs = append(callNs, e.N)
 			j.counts["ApplySnapshotChunk calls"]++
+			if k, w := provenance(arr, e); k != "" {
+				j.add(k, w, e.N, e)
+			}
+			if a := concurrentSource(arr, concurrent, e); a != nil {
+				j.counts["applied chunk came out of a concurrent batch"]++
+				if strings.HasPrefix(string(unhex(e.B)), "T") {
+					j.counts["... the honest delivery had won"]++
+				} else {
+					j.counts["... a forged delivery had won"]++
+				}
+			}
+			if lastApplyRet != nil && lastApplyRet.M == "RETRY" && len(lastApplyRet.Refetch) == 0 && lastApplyCall != nil && lastApplyCall.I == e.I {
+				if lastApplyCall.B == e.B && lastApplyCall.Sender == e.Sender {
+					j.counts["chunk re-applied after plain RETRY with the same bytes and sender"]++
+				}
+			}
+			lastApplyCall = e
 		case "apply-ret":
+			if inBatch {
+				batchRet = true
+			}
 			lastApplyRet = e
 			j.counts["apply verdict "+e.M]++
 			if len(e.Refetch) > 0 {
@@ -358,6 +411,13 @@ func judge(h *Header, evs []Ev) *judgement {
 			for _, s := range e.Reject {
 				if p := peerOf(s); p >= 0 {
 					rejections = append(rejections, rejection{p, e.N})
+				}
+				if lastApplyCall != nil && s == lastApplyCall.Sender && lastApplyCall.C == e.C {
+					if k, _ := provenance(arr, lastApplyCall); k == "" {
+						j.counts["sender rejected for a chunk was the peer that had delivered those bytes"]++
+					} else {
+						j.add("sender-rejected-for-bytes-of-another-peer", fmt.Sprintf("the app rejected sender %s for chunk %d, but the bytes it was shown had not been delivered by that peer", s, e.I), e.N, e)
+					}
 				}
 			}
 			switch e.M {
@@ -538,7 +598,15 @@ func judge(h *Header, evs []Ev) *judgement {
 			}
 		}
 		if superFail != nil {
-			j.add(superFail.key, superFail.what, superFail.at, superFail.ev)
+			dup := false
+			for _, f := range j.findings {
+				if f.At == superFail.at && f.Key == superFail.key {
+					dup = true
+				}
+			}
+			if !dup {
+				j.add(superFail.key, superFail.what, superFail.at, superFail.ev)
+			}
 		}
 	}
 	for k, v := range m.counts {
@@ -656,4 +724,15 @@ func stateDiff(aHex, bHex string) []string {
 		out = append(out, "(encoding only)")
 	}
 	return out
+}
+
+// concurrentSource: the arrival out of a concurrent batch that explains an apply call, if any.
+func concurrentSource(arr map[int]*arrival, concurrent map[int]bool, e *Ev) *arrival {
+	for id := range concurrent {
+		a := arr[id]
+		if a != nil && a.peer == e.P && a.i == e.I && a.h == e.H && a.f == e.F && a.b == e.B && a.start < e.N {
+			return a
+		}
+	}
+	return nil
 }
